@@ -41,7 +41,7 @@ def make_dataset(cfg, intensities4d):
                                     units=("A", "A", "A^-1", "A^-1"))
     pd = Q.Raster.from_dataset4dstem(ds, verbose=0, learn_descan=False, learn_scan_positions=False)
     pd.preprocess(com_fit_function=cfg["com"], plot_rotation=False, plot_com=False, probe_energy=cfg["energy"],
-                  force_com_rotation=0, force_com_transpose=False, vectorized=True)
+                  force_com_rotation=cfg.get("rotation_deg", 0), force_com_transpose=bool(cfg.get("transpose", False)), vectorized=True)
     return pd
 
 
